@@ -246,22 +246,47 @@ def dispatch(ctx):
     sc = get_schema(repo)
     r = ctx.rule('C14-DISPATCH', 'mk_association handles exactly the subtypes of R_REL over R206', floor=4, oracle='schema subtype set of R206')
     fn = repo.func(OOA + ':mk_association')
-    table = None
-    for n in ast.walk(fn):
-        if isinstance(n, ast.Assign) and isinstance(n.value, ast.Dict):
-            table = {k.value: src(v) for k, v in zip(n.value.keys, n.value.values) if isinstance(k, ast.Constant)}
-    if table is None:
-        raise AnalysisError('%s: handler table of mk_association not found' % loc(fn))
+    # abstract execution for every kind of R206 subtype (table lookup, if/elif chain and mixtures alike)
+    from .. import absint
     subs = set(sc.subkinds('R_REL', 206))
-    r.check(set(table) == subs, 'handler table keys = %s' % sorted(subs), fn, construct=OOA + ':mk_association', key='keys',
+
+    def kind_of(x):
+        return pm.match('type(_X).__name__', x) is not None or pm.match('_X.__class__.__name__', x) is not None
+
+    def cmp_(e, s, tr):
+        a_, b_ = e['_A'], e['_B']
+        lit, other = (a_, b_) if isinstance(a_, ast.Constant) else (b_, a_)
+        if isinstance(lit, ast.Constant) and isinstance(lit.value, str) and kind_of(other):
+            return s['kind'] == lit.value
+        return None
+
+    def in_(e, s, tr):
+        L = e['_L']
+        if kind_of(e['_A']) and isinstance(L, (ast.Tuple, ast.List, ast.Set, ast.Dict)):
+            ks = L.keys if isinstance(L, ast.Dict) else L.elts
+            if all(isinstance(k, ast.Constant) for k in ks):
+                return s['kind'] in [k.value for k in ks]
+        return None
+    it = absint.Interp(fn, [('_A == _B', cmp_), ('_A != _B', lambda e, s, tr: (None if cmp_(e, s, tr) is None else not cmp_(e, s, tr))),
+                            ('_A in _L', in_), ('_A not in _L', lambda e, s, tr: (None if in_(e, s, tr) is None else not in_(e, s, tr)))])
+    it.key_equals = lambda k, kn, s: (s['kind'] == kn.value) if (kind_of(k) and isinstance(kn, ast.Constant)) else None
+    it.pure_calls = {'subtype', 'mk_simple_association', 'mk_linked_association', 'mk_subsuper_association', 'mk_derived_association'}
+    table = {}
+    applied = True
+    for k in sorted(subs | {'R_OTHER'}):
+        out, tr = it.run({'kind': k})
+        if out.kind == 'return' and isinstance(out.value, ast.Call) and isinstance(out.value.func, ast.Name):
+            table[k] = out.value.func.id
+            applied = applied and pm.match('%s(m, subtype(r_rel, 206))' % out.value.func.id, out.value) is not None
+    handled = set(k for k in table if k != 'R_OTHER')
+    r.check(handled == subs and 'R_OTHER' not in table, 'handled kinds = %s' % sorted(subs), fn, construct=OOA + ':mk_association', key='keys',
             msg='mk_association handles %s; the schema has the R206 subtypes %s' % (sorted(table), sorted(subs)))
     want = {'R_SIMP': 'mk_simple_association', 'R_ASSOC': 'mk_linked_association', 'R_SUBSUP': 'mk_subsuper_association', 'R_COMP': 'mk_derived_association'}
     for k, v in want.items():
         r.check(table.get(k) == v, '%s -> %s' % (k, v), fn, construct=OOA + ':mk_association', key='handler ' + k,
                 msg='mk_association maps %s to %s, expected %s' % (k, table.get(k), v))
-    r.check(pm.contains('_I = subtype(r_rel, 206)', fn) and pm.contains('_F = handler.get(type(_I).__name__)', fn) and pm.contains('return _F(m, _I)', fn),
-            'the handler is chosen by the kind of the R206 subtype instance and applied to it', fn, construct=OOA + ':mk_association', key='apply',
-            msg='mk_association does not dispatch on type(subtype(r_rel, 206)).__name__')
+    r.check(applied and bool(table), 'the handler is chosen by the kind of the R206 subtype instance and applied to it', fn,
+            construct=OOA + ':mk_association', key='apply', msg='mk_association does not dispatch on type(subtype(r_rel, 206)).__name__')
 
 
 def order(ctx):
